@@ -43,14 +43,35 @@ def ensure_harness():
     t0 = time.time()
     env = dict(os.environ)
     env["CARGO_NET_OFFLINE"] = "true"
-    p = subprocess.run(["cargo", "build", "--release", "--offline", "--bins"], cwd=HARNESS,
+    cmd = ["cargo", "build", "--release", "--offline", "--bins"]
+    if repo_override():
+        # mutation testing only: build against a scratch copy of the repository, in a separate target dir
+        cmd += ["--config", 'paths=["%s"]' % repo_override()]
+        env["CARGO_TARGET_DIR"] = _target_dir()
+    p = subprocess.run(cmd, cwd=HARNESS,
                        env=env, stdout=subprocess.PIPE, stderr=subprocess.STDOUT, text=True)
     if p.returncode != 0:
         log(p.stdout[-4000:])
         raise ToolError("harness build failed")
-    log(f"[build] harness ok in {time.time()-t0:.1f}s")
+    log(f"[build] harness ok in {time.time()-t0:.1f}s" + (f" (repo override {repo_override()})" if repo_override() else ""))
     _built = True
-    return os.path.join(HARNESS, "target", "release")
+    return os.path.join(_target_dir(), "release")
+
+
+def repo_override():
+    """VERIF_REPO=<dir>: development aid for mutation testing in a scratch worktree (never used by registered commands)."""
+    d = os.environ.get("VERIF_REPO")
+    return os.path.abspath(d) if d else None
+
+
+def repo_dir():
+    return repo_override() or REPO
+
+
+def _target_dir():
+    if repo_override():
+        return os.path.join(repo_override(), "target-verif-harness")
+    return os.path.join(HARNESS, "target")
 
 
 def run_bin(name, args, stdin=None, timeout=3600, env=None, stdout_path=None):
